@@ -372,7 +372,99 @@ class QuerySeq(Op):
         return "rqueryseq/%s/fmt%d/%s" % (a[0], info["fmt"], "bounded" if info["reps"] else "unbounded")
 
 
+class QueryFrac(Op):
+    """Queries with a sub-second part: a probe between 0 and 1 s away from a member (dyadic eighths of a second, so
+    binary64 is exact) is NOT a member; a member reached with a fractional interval IS.  get_is_valid, get_next,
+    get_prev and get_first_after must answer as iteration does - on whole-second series probed with decimal seconds
+    and on series whose start or interval carries the fraction."""
+    prop = PROP
+    name = "rqueryfrac"
+    model = False
+
+    def gen(self, rng, tier, boost):
+        n = 400 * boost if tier == "quick" else 5000 * boost
+        for _ in range(n):
+            m = gens.mode(rng)
+            anchor = R.gen_anchor(rng, m)
+            anchor = T.tp_from_inst(m, T.inst(m, anchor), anchor[0], anchor[7], anchor[8])
+            start8 = rng.choice([0, 0, 0, 4, 1, 7])                 # eighths of a second on the start
+            step8 = rng.choice([8, 8 * 60, 8 * 3600, 8 * 21600, 12, 4, 2, 20, 8 * 90 + 4, 8 * 86400])
+            reps = rng.choice([None, None, None, 2, 3, 5, 9])
+            fmt = rng.choice([3, 3, 3, 4])
+            j = rng.choice([0, 1, 2, 3, 4, 8, 9, -1])
+            e8 = rng.choice([0, 0, 1, 4, 7, -1, -4, 8, 3])           # eighths of a second off the lattice point
+            yield (m, anchor, start8, step8, reps, fmt, j, e8)
+
+    def line(self, a):
+        return "rqueryfrac %s %s +%d/8s step %d/8s reps=%s fmt%d probe j=%d e=%d/8" % (
+            a[0], T.tp_str(a[1]), a[2], a[3], a[4], a[5], a[6], a[7])
+
+    def build(self, a):
+        from metomi.isodatetime.data import TimeRecurrence, Duration
+        m, anchor, start8, step8, reps, fmt, j, e8 = a
+        p = T.mk_tp(anchor) + Duration(seconds=start8 / 8.0)
+        d = Duration(seconds=step8 / 8.0)
+        rec = TimeRecurrence(repetitions=reps, start_point=p, duration=d) if fmt == 3 else \
+            TimeRecurrence(repetitions=reps, duration=d, end_point=p)
+        sign = 1 if fmt == 3 else -1
+        probe = p + Duration(seconds=(sign * j * step8 + e8) / 8.0)
+        return p, rec, probe
+
+    def impl(self, a):
+        from fractions import Fraction
+        set_mode(a[0])
+        p, rec, probe = self.build(a)
+
+        def rel(q):
+            if q is None:
+                return "None"
+            return str(Fraction((q - p).get_seconds()).limit_denominator(64) * 8)
+        # (get_first_after is defined for series that have a start point: C13_first_after_exact)
+        first = rel(rec.get_first_after(probe)) if rec.start_point is not None else "n/a"
+        return "valid=%s next=%s prev=%s first=%s" % (rec.get_is_valid(probe), rel(rec.get_next(probe)),
+                                                       rel(rec.get_prev(probe)), first)
+
+    def oracle(self, a, out):
+        m, anchor, start8, step8, reps, fmt, j, e8 = a
+        if out.startswith(("err", "EXC", "Timeout")):
+            return "%s failed: %s" % (self.line(a), out)
+        sign = 1 if fmt == 3 else -1
+        x = sign * j * step8 + e8             # probe's offset from the anchor point, in eighths of a second
+        # the members' offsets: k*step8 for k in the index range of the notation
+        if fmt == 3:
+            def member(v):
+                return v % step8 == 0 and v >= 0 and (reps is None or v // step8 < reps)
+        else:
+            def member(v):
+                return v % step8 == 0 and v <= 0 and (reps is None or -v // step8 < reps)
+        got = dict(item.split("=") for item in out.split())
+        want_valid = member(x)
+        if got["valid"] != str(want_valid):
+            return "%s: get_is_valid gives %s; the probe is %s of the series (offset %d/8 s from the anchor)" % (
+                self.line(a), got["valid"], "a member" if want_valid else "NOT a member", x)
+        if got["first"] != "n/a" and fmt == 3 and step8 > 0 and (start8 + x) % 8 == 0:
+            # (the property claims get_first_after for whole-second probes; the series may carry fractions)
+            # the earliest member strictly later than the probe
+            k = max(0, x // step8 + 1)
+            want_first = k * step8 if (reps is None or k < reps) else None
+            if got["first"] != ("None" if want_first is None else str(want_first)):
+                return "%s: get_first_after gives offset %s/8 s, the earliest later member is at %s" % (
+                    self.line(a), got["first"], want_first)
+        if not want_valid:
+            return None          # neighbours are claimed from a member only
+        nxt = x + step8 if member(x + step8) else None
+        prv = x - step8 if member(x - step8) else None
+        for name, want in (("next", nxt), ("prev", prv)):
+            if got[name] != ("None" if want is None else str(want)):
+                return "%s: get_%s gives offset %s/8 s, iteration gives %s" % (self.line(a), name, got[name], want)
+        return None
+
+    def label(self, a):
+        return "rqueryfrac/%s/fmt%d/%s/%s" % (a[0], a[5], "unbounded" if a[4] is None else "bounded",
+                                              "on" if a[7] % a[3] == 0 else "off")
+
+
 def ops():
     import recmm
-    return [IsValid(), GetItem(), Next(), Prev(), FirstAfter(), QuerySeq(),
+    return [IsValid(), GetItem(), Next(), Prev(), FirstAfter(), QuerySeq(), QueryFrac(),
             recmm.RecMMOp(PROP, "mmquery", ["mmritem", "mmrvalid", "mmrvalid", "mmrnext", "mmrprev", "mmrfirst", "mmrfirst"], 700)]
